@@ -182,6 +182,27 @@ def run(prop, tier, seed, work):
         steps.append({"op": "encode", "ty": ty, "v": len(vv) - 1, "byval": False, "buf": {"mode": "rel", "n": 0, "extra": 0}})
         sid = "C07-byval-%s" % b
         scen.append({"sid": sid, "prop": prop, "vals": vv, "steps": steps, "tags": ["byval-sequence"], "dkey": sid})
+    # systematic: failing decodes of one type that miss DIFFERENT required fields, in every order (what the error names
+    # belongs to the call that reports it)
+    m1 = [11, 0, 64, 0, 0, 0, 1, 120, 0]            # field 64 only: 1 is missing
+    m64 = [8, 0, 1, 0, 0, 0, 5, 0]                  # field 1 only: 64 is missing
+    mboth = [3, 0, 65, 7, 0]                        # neither
+    mok = [8, 0, 1, 0, 0, 0, 5, 11, 0, 64, 0, 0, 0, 1, 121, 0]
+    import itertools
+    for oi, order in enumerate(itertools.permutations([m1, m64, mboth])):
+        ty = "Rq_%d" % (oi % ncopies)
+        steps = []
+        for m in order:
+            steps.append({"op": "decode", "ty": ty, "in": m, "dest": "fresh"})
+        steps.append({"op": "decode", "ty": ty, "in": mok, "dest": "fresh"})
+        steps.append({"op": "decode", "ty": ty, "in": order[1], "dest": "zero"})
+        # the same inside a map value of another type
+        wrap = lambda m: [13, 0, 2, 8, 12, 0, 0, 0, 1, 0, 0, 0, 9] + m + [0]
+        mp = "Mp_%d" % (oi % ncopies)
+        for m in order:
+            steps.append({"op": "decode", "ty": mp, "in": wrap(m), "dest": "fresh"})
+        sid = "C07-reqnames-%d" % oi
+        scen.append({"sid": sid, "prop": prop, "vals": [], "steps": steps, "tags": ["required-names"], "dkey": sid})
     # systematic: a rejected definition of every class, then the FIRST use of a fresh valid type (whatever the
     # failed build left behind in the parser / resolver must not show in the next type's schema)
     import checks_reject
